@@ -123,6 +123,9 @@ def lp_execute(rec, seed=0):
             fmt.format(logging.LogRecord("vp.monitor", logging.INFO, "vp", 0, "primer", (primer,), None))
         r = logging.LogRecord("vp.monitor", logging.INFO, "vp", 0, text(rec["name"], na_char), (args,), None)
         r.created = rec["created"] + (0.25 if seed % 2 else 0.0)
+        if seed % 3 == 1:
+            # one record usually reaches several handlers: formatting it must not consume it
+            LineProtocolFormatter(tags=tags, resolution=(rec["res"] if rec["res"] else None)).format(r)
         out = fmt.format(r)
     except Exception as e:  # noqa
         exc = type(e).__name__
@@ -164,6 +167,11 @@ def js_execute(rec, seed=0):
             r.created = float(int(r.created)) + 0.5
             r.msecs = 500.0
             fmt.format(r0)
+        if seed % 3 == 2 and data:
+            # the record was formatted for another handler (line protocol, every key a tag) before
+            from cobald.monitor.format_line import LineProtocolFormatter
+
+            LineProtocolFormatter(tags=set(data)).format(r)
         s = fmt.format(r)
         obj = json.loads(s)
         isobj = isinstance(obj, dict) and "\n" not in s
